@@ -15,6 +15,14 @@ pub const CAP: usize = 4;
 
 fn empty<T>() -> [Option<T>; CAP] { std::array::from_fn(|_| None) }
 
+pub type SlotIter<'a, T> = std::iter::Flatten<std::slice::Iter<'a, Option<T>>>;
+pub type PairIter<'a, K, V> = std::iter::Map<SlotIter<'a, (K, V)>, fn(&'a (K, V)) -> (&'a K, &'a V)>;
+pub type KeyIter<'a, K, V> = std::iter::Map<SlotIter<'a, (K, V)>, fn(&'a (K, V)) -> &'a K>;
+pub type ValIter<'a, K, V> = std::iter::Map<SlotIter<'a, (K, V)>, fn(&'a (K, V)) -> &'a V>;
+fn pair_ref<K, V>(e: &(K, V)) -> (&K, &V) { (&e.0, &e.1) }
+fn key_ref<K, V>(e: &(K, V)) -> &K { &e.0 }
+fn val_ref<K, V>(e: &(K, V)) -> &V { &e.1 }
+
 // ------------------------------------------------------------ generic slot store
 #[derive(Clone, PartialEq, Eq, PartialOrd, Ord, Hash)]
 pub struct Slots<T> { items: [Option<T>; CAP], len: usize }
@@ -41,7 +49,7 @@ impl<T> Slots<T> {
     }
     pub fn get(&self, i: usize) -> &T { self.items[i].as_ref().unwrap() }
     pub fn get_mut(&mut self, i: usize) -> &mut T { self.items[i].as_mut().unwrap() }
-    pub fn iter(&self) -> impl DoubleEndedIterator<Item = &T> + '_ { self.items.iter().filter_map(|x| x.as_ref()) }
+    pub fn iter(&self) -> SlotIter<'_, T> { self.items.iter().flatten() }
     pub fn iter_mut(&mut self) -> impl Iterator<Item = &mut T> + '_ { self.items.iter_mut().filter_map(|x| x.as_mut()) }
     pub fn into_iter(self) -> impl Iterator<Item = T> { self.items.into_iter().flatten() }
     pub fn clear(&mut self) { let mut i = 0; while i < CAP { self.items[i] = None; i += 1; } self.len = 0; }
@@ -86,9 +94,9 @@ impl<K: Ord, V> BTreeMap<K, V> {
     pub fn remove<Q: ?Sized + Ord>(&mut self, k: &Q) -> Option<V> where K: Borrow<Q> {
         match self.search(k) { Ok(i) => Some(self.s.remove_at(i).1), Err(_) => None }
     }
-    pub fn iter(&self) -> impl DoubleEndedIterator<Item = (&K, &V)> + '_ { self.s.iter().map(|(k, v)| (k, v)) }
-    pub fn keys(&self) -> impl DoubleEndedIterator<Item = &K> + '_ { self.s.iter().map(|(k, _)| k) }
-    pub fn values(&self) -> impl DoubleEndedIterator<Item = &V> + '_ { self.s.iter().map(|(_, v)| v) }
+    pub fn iter(&self) -> PairIter<'_, K, V> { self.s.iter().map(pair_ref as fn(&(K, V)) -> (&K, &V)) }
+    pub fn keys(&self) -> KeyIter<'_, K, V> { self.s.iter().map(key_ref as fn(&(K, V)) -> &K) }
+    pub fn values(&self) -> ValIter<'_, K, V> { self.s.iter().map(val_ref as fn(&(K, V)) -> &V) }
     pub fn retain<F: FnMut(&K, &mut V) -> bool>(&mut self, mut f: F) { self.s.retain(|(k, v)| f(k, v)) }
 }
 impl<K: Ord, V> FromIterator<(K, V)> for BTreeMap<K, V> {
@@ -120,7 +128,7 @@ impl<T: Eq> HashSet<T> {
     }
     pub fn insert(&mut self, t: T) -> bool { if self.pos(&t).is_some() { false } else { self.s.push(t); true } }
     pub fn contains<Q: ?Sized + Eq>(&self, k: &Q) -> bool where T: Borrow<Q> { self.pos(k).is_some() }
-    pub fn iter(&self) -> impl Iterator<Item = &T> + '_ { self.s.iter() }
+    pub fn iter(&self) -> SlotIter<'_, T> { self.s.iter() }
 }
 impl<T: Eq> PartialEq for HashSet<T> { fn eq(&self, o: &Self) -> bool { self.len() == o.len() && self.s.iter().all(|t| o.contains(t)) } }
 impl<T: Eq> Eq for HashSet<T> {}
@@ -186,17 +194,28 @@ impl<K, V> Default for HashMap<K, V> { fn default() -> Self { HashMap { s: Slots
 impl<K, V> Debug for HashMap<K, V> { fn fmt(&self, _f: &mut std::fmt::Formatter<'_>) -> std::fmt::Result { Ok(()) } }
 pub mod hash_map {
     use super::Slots;
-    pub enum Entry<'a, K, V> { Occupied(&'a mut V), Vacant(&'a mut Slots<(K, V)>, K) }
+    pub use std::collections::hash_map::{DefaultHasher, RandomState};
+    pub enum Entry<'a, K, V> { Occupied(OccupiedEntry<'a, K, V>), Vacant(VacantEntry<'a, K, V>) }
+    pub struct OccupiedEntry<'a, K, V> { pub(crate) s: &'a mut Slots<(K, V)>, pub(crate) i: usize }
+    pub struct VacantEntry<'a, K, V> { pub(crate) s: &'a mut Slots<(K, V)>, pub(crate) k: K }
+    impl<'a, K, V> OccupiedEntry<'a, K, V> {
+        pub fn get(&self) -> &V { &self.s.get(self.i).1 }
+        pub fn get_mut(&mut self) -> &mut V { &mut self.s.get_mut(self.i).1 }
+        pub fn into_mut(self) -> &'a mut V { &mut self.s.get_mut(self.i).1 }
+        pub fn key(&self) -> &K { &self.s.get(self.i).0 }
+        pub fn insert(&mut self, v: V) -> V { std::mem::replace(&mut self.s.get_mut(self.i).1, v) }
+        pub fn remove(self) -> V { self.s.remove_at(self.i).1 }
+    }
+    impl<'a, K, V> VacantEntry<'a, K, V> {
+        pub fn key(&self) -> &K { &self.k }
+        pub fn insert(self, v: V) -> &'a mut V { self.s.push((self.k, v)); let n = self.s.len() - 1; &mut self.s.get_mut(n).1 }
+    }
     impl<'a, K, V> Entry<'a, K, V> {
-        pub fn or_insert_with<F: FnOnce() -> V>(self, f: F) -> &'a mut V {
-            match self {
-                Entry::Occupied(r) => r,
-                Entry::Vacant(s, k) => { s.push((k, f())); let n = s.len() - 1; &mut s.get_mut(n).1 }
-            }
-        }
+        pub fn or_insert_with<F: FnOnce() -> V>(self, f: F) -> &'a mut V { match self { Entry::Occupied(o) => o.into_mut(), Entry::Vacant(v) => v.insert(f()) } }
         pub fn or_insert(self, v: V) -> &'a mut V { self.or_insert_with(|| v) }
         pub fn or_default(self) -> &'a mut V where V: Default { self.or_insert_with(V::default) }
-        pub fn and_modify<F: FnOnce(&mut V)>(mut self, f: F) -> Self { if let Entry::Occupied(r) = &mut self { f(r); } self }
+        pub fn and_modify<F: FnOnce(&mut V)>(mut self, f: F) -> Self { if let Entry::Occupied(o) = &mut self { f(o.get_mut()); } self }
+        pub fn key(&self) -> &K { match self { Entry::Occupied(o) => o.key(), Entry::Vacant(v) => v.key() } }
     }
 }
 impl<K: Eq, V> HashMap<K, V> {
@@ -221,13 +240,13 @@ impl<K: Eq, V> HashMap<K, V> {
     pub fn remove<Q: ?Sized + Eq>(&mut self, k: &Q) -> Option<V> where K: Borrow<Q> { self.pos(k).map(|i| self.s.remove_at(i).1) }
     pub fn entry(&mut self, k: K) -> hash_map::Entry<'_, K, V> {
         match self.pos(&k) {
-            Some(i) => hash_map::Entry::Occupied(&mut self.s.get_mut(i).1),
-            None => hash_map::Entry::Vacant(&mut self.s, k),
+            Some(i) => hash_map::Entry::Occupied(hash_map::OccupiedEntry { s: &mut self.s, i }),
+            None => hash_map::Entry::Vacant(hash_map::VacantEntry { s: &mut self.s, k }),
         }
     }
-    pub fn iter(&self) -> impl Iterator<Item = (&K, &V)> + '_ { self.s.iter().map(|(k, v)| (k, v)) }
-    pub fn keys(&self) -> impl Iterator<Item = &K> + '_ { self.s.iter().map(|(k, _)| k) }
-    pub fn values(&self) -> impl Iterator<Item = &V> + '_ { self.s.iter().map(|(_, v)| v) }
+    pub fn iter(&self) -> PairIter<'_, K, V> { self.s.iter().map(pair_ref as fn(&(K, V)) -> (&K, &V)) }
+    pub fn keys(&self) -> KeyIter<'_, K, V> { self.s.iter().map(key_ref as fn(&(K, V)) -> &K) }
+    pub fn values(&self) -> ValIter<'_, K, V> { self.s.iter().map(val_ref as fn(&(K, V)) -> &V) }
     pub fn values_mut(&mut self) -> impl Iterator<Item = &mut V> + '_ { self.s.iter_mut().map(|(_, v)| v) }
     pub fn retain<F: FnMut(&K, &mut V) -> bool>(&mut self, mut f: F) { self.s.retain(|(k, v)| f(k, v)) }
 }
@@ -392,7 +411,7 @@ impl<T: Ord> BTreeSet<T> {
     pub fn remove<Q: ?Sized + Ord>(&mut self, k: &Q) -> bool where T: Borrow<Q> {
         match self.search(k) { Ok(i) => { self.s.remove_at(i); true } Err(_) => false }
     }
-    pub fn iter(&self) -> impl DoubleEndedIterator<Item = &T> + '_ { self.s.iter() }
+    pub fn iter(&self) -> SlotIter<'_, T> { self.s.iter() }
     pub fn first(&self) -> Option<&T> { if self.s.len() == 0 { None } else { Some(self.s.get(0)) } }
     pub fn last(&self) -> Option<&T> { if self.s.len() == 0 { None } else { Some(self.s.get(self.s.len() - 1)) } }
     pub fn retain<F: FnMut(&T) -> bool>(&mut self, mut f: F) { self.s.retain(|t| f(t)) }
@@ -510,3 +529,13 @@ impl<T: Ord> BTreeSet<T> {
 }
 impl<T> Default for SlotsIntoIter<T> { fn default() -> Self { SlotsIntoIter(std::marker::PhantomData) } }
 pub struct SlotsIntoIter<T>(std::marker::PhantomData<T>);
+
+impl<'a, T: Eq + Copy> Extend<&'a T> for HashSet<T> {
+    fn extend<I: IntoIterator<Item = &'a T>>(&mut self, it: I) { for t in it { self.insert(*t); } }
+}
+impl<'a, T: Ord + Copy> Extend<&'a T> for BTreeSet<T> {
+    fn extend<I: IntoIterator<Item = &'a T>>(&mut self, it: I) { for t in it { self.insert(*t); } }
+}
+impl<'a, K: Eq + Copy, V: Copy> Extend<(&'a K, &'a V)> for HashMap<K, V> {
+    fn extend<I: IntoIterator<Item = (&'a K, &'a V)>>(&mut self, it: I) { for (k, v) in it { self.insert(*k, *v); } }
+}
